@@ -85,7 +85,7 @@ def run(tier):
         path = K.save_replay(PID, key.replace(":", "_"), {"case.json": json.dumps(data, indent=1)})
         print("VIOLATION property=%s replay=%s" % (PID, path))
         print("  " + text)
-    evp = os.path.join(K.VERIF, "evidence", PID + ".json")
+    evp = K.evidence_path(PID)
     ev = json.load(open(evp))
     ev["coverage"]["lexer_stage"] = lcov
     ev["coverage"]["traces_validated_against_impl"] += lcov["traces"]
